@@ -145,11 +145,6 @@ static void symFields(FieldT fields[], unsigned nfields)
         // XEP-0004: var is unique within a form, FORM_TYPE is reserved (a 0..2 unit key over the alphabet never equals it)
         if (i > 0 && i < nfields) vp_assume(txtCmp(fields[i].key, fields[0].key) != 0);
         if (!fields[i].multi) vp_assume(fields[i].nval <= 1);
-#ifdef KF_empty_field_value
-        // known finding: a field without any <value/> (empty single value or empty value list) is hashed as "var<<"
-        vp_assume(fields[i].nval >= 1);
-        if (!fields[i].multi) vp_assume(fields[i].val[0].len >= 1);
-#endif
     }
 }
 // the value toXml() would serialise for a single-valued field: an empty value is written as NO <value/> element
@@ -179,10 +174,10 @@ extern "C" void h_form_ref()
     check_against_oracle(r, ver);
 }
 
-// Demonstration of the finding "empty_field_value" (runs only while the key is listed in known_findings.txt): one identity,
-// FORM_TYPE and ONE single-valued field whose value is the empty string.  QXmppDataForm::toXml() serialises such a field without
-// any <value/> element, so XEP-0115 5.1 gives "...<var<" for what is sent, whereas verificationString() hashes "...<var<<".
-extern "C" void h_form_kf_empty()
+// Regression instance for the defect fixed in /repo 13f5df9 ("var<<" instead of "var<"): one identity, FORM_TYPE and ONE
+// single-valued field whose value is the empty string.  QXmppDataForm::toXml() serialises such a field without any <value/>
+// element, so XEP-0115 5.1 gives "...<var<" for what is sent.
+extern "C" void h_form_empty_value()
 {
     VpRaw<QXmppDiscoveryIq> raw; QXmppDiscoveryIq *iq = rawIq(raw);
     IdT ids[NID]; FieldT fields[NFIELD];
